@@ -205,14 +205,29 @@ class Run:
             if line.startswith('"MISMATCH '):
                 mm.append(json.loads(json.loads(line)[9:]))
         accepted = "TRACE-ACCEPTED" in txt and "No error has been found" in txt
+        # an invariant of the trace spec (e.g. "the cursor is a well-formed in-range value") violated by a state that was
+        # resynchronised from what the implementation reported is a verdict about the implementation, not a tool error
+        inv = re.search(r"Error: Invariant (\w+) is violated", txt)
+        inv_mm = None
+        if inv and not accepted:
+            ls = [int(x) for x in re.findall(r"^/\\ l = (\d+)", txt, flags=re.M)]
+            at = (max(ls) - 1) if ls else 0
+            inv_mm = dict(i=at, op=None, cls="invariant/" + inv.group(1), expected="trace-spec invariant " + inv.group(1) + " holds in every state",
+                          observed=dict(kind="invariant-violated"))
         if expect_reject:
             return (not accepted) or len(mm) > 0, mm
-        if not accepted:
+        if not accepted and inv_mm is None:
             raise ToolError(f"trace validation did not complete for {trace} (rc={rc}); see {outp}\n" + _tail(txt))
         sessions = 0
         with open(trace) as f:
             evs = [json.loads(l) for l in f]
         sessions = sum(1 for e in evs if e.get("op") == "reset") + 1
+        if inv_mm is not None:
+            if 1 <= inv_mm["i"] <= len(evs):
+                inv_mm["op"] = evs[inv_mm["i"] - 1].get("op")
+                inv_mm["observed"]["val"] = evs[inv_mm["i"] - 1].get("out")
+            mm.append(inv_mm)
+            log(f"[validate] {label}: trace-spec invariant violated at event {inv_mm['i']} (events after it were not examined)")
         for m in mm:
             m["direction"] = "trace"
             m["source"] = os.path.relpath(trace, ROOT)
